@@ -399,11 +399,12 @@ Section AUTH.
   (* 2. C04 - freshness window                                                                *)
   (* ======================================================================================== *)
 
-  (* stated over the regenerated constant: changing ALLOWED_MISMATCH_MINUTES in the source breaks it *)
+  (* stated over the regenerated constant (the Duration handed to validate_signature by
+     sigv4_validate_request, in nanoseconds): changing it in the source breaks these two *)
   Theorem C04_constant : allowed_mismatch_ns = (900 * 1000000000)%Z.
   Proof. reflexivity. Qed.
 
-  Theorem C04_constant_minutes : src_ALLOWED_MISMATCH_MINUTES = 15%Z /\ ns_per_s = 1000000000%Z.
+  Theorem C04_constant_minutes : src_allowed_mismatch_ns = (15 * 60 * 1000000000)%Z /\ ns_per_s = 1000000000%Z.
   Proof. split; reflexivity. Qed.
 
   (* the freshness stage passes exactly inside the closed window; outside it, it is a
